@@ -86,6 +86,29 @@ def case_entry_points(ctx):
         res[entry] = str(fb)
 
 
+def case_entry_points_header_elsewhere(ctx):
+    """a compressed recording whose .ch header is kept elsewhere and named explicitly (ch_file=), through the .cbin and the .meta path"""
+    import spikeglx
+    eb = ctx.bool("bin_exists")
+    F, raw = _install(eb, True, False, True)
+    F.add("/e/h.ch", True, 11, {"ch_for": BASE + ".cbin"})
+    have_bin = bool(eb)
+    for entry in ("cbin", "meta"):
+        sr = ctx.call(f"open_through_{entry}", lambda: spikeglx.Reader(FakePath(BASE + "." + entry), ch_file=FakePath("/e/h.ch")))
+        fb = sr.file_bin
+        want = (BASE + ".bin") if (have_bin and entry == "meta") else (BASE + ".cbin")
+        ok = ctx.oblige("resolves_to_an_existing_data_file", fb is not None and str(fb) == want, detail={"entry": entry, "file_bin": str(fb)})
+        if ok:
+            ctx.oblige("reader_is_open", sr.is_open, detail={"entry": entry})
+            ctx.oblige("same_shape_through_every_entry_point", and_(core.eq(sr.shape[0], NS), sr.shape[1] == NC), detail={"entry": entry})
+            p = ctx.int("p", 0, NS - 1)
+            row = ctx.call("read", lambda: sr[p, :])
+            s2v = sr.sample2volts
+            order = [int(v) for v in sr.raw_channel_order]
+            for j in range(NC):
+                ctx.oblige("same_values_through_every_entry_point", core.eq(row[j], np2env.raw_elem(p, order[j]) * float(s2v[order[j]])), detail={"entry": entry, "j": j})
+
+
 def _final_state_ok(ctx, F, final_name, what):
     f = F.get(final_name)
     if f is None or not bool(f.exists):
@@ -269,7 +292,7 @@ def case_decompress_inplace_retry(ctx, fault):
 
 
 def cases(tier):
-    cs = [Case("entry_points", "case_entry_points", {})]
+    cs = [Case("entry_points", "case_entry_points", {}), Case("entry_points_header_elsewhere", "case_entry_points_header_elsewhere", {})]
     for k in ([1, 2, 3] if tier == "quick" else [0, 1, 2, 3, 4, 5, 6]):
         cs.append(Case(f"inplace_retry_fault{k}", "case_decompress_inplace_retry", {"fault": k}))
     for k in [None] + bounds(tier)["faults"]:
@@ -317,6 +340,28 @@ def mk_cbin():
     mk_bin(); sr = spikeglx.Reader(d / 'x.imec0.ap.bin'); sr.compress_file(keep_original=False); sr.close()
 class Boom(BASE_EXC): pass
 '''.replace("BASE_EXC", "BaseException" if m.get("interrupted_by_a_signal") else "OSError")
+    if case == "entry_points_header_elsewhere":
+        return common + f"""
+import shutil
+mk_cbin()
+(d / 'e').mkdir(); shutil.move(d / 'x.imec0.ap.ch', d / 'e' / 'h.ch')
+be = {bool(m.get('bin_exists'))}
+if be: data.tofile(d / 'x.imec0.ap.bin')
+bad = []
+for entry in ['cbin', 'meta']:
+    try:
+        sr = spikeglx.Reader(d / f'x.imec0.ap.{{entry}}', ch_file=d / 'e' / 'h.ch')
+    except Exception as e:
+        bad.append((entry, 'raised', repr(e))); continue
+    if sr.file_bin is None or not pathlib.Path(sr.file_bin).exists(): bad.append((entry, 'file_bin', str(sr.file_bin))); continue
+    if not sr.is_open or sr.shape != (ns, nc): bad.append((entry, 'shape', sr.shape if sr.is_open else None)); continue
+    exp = data[:, sr.raw_channel_order].astype(np.float32) * sr.sample2volts[sr.raw_channel_order]
+    if not np.array_equal(sr[:, :], exp): bad.append((entry, 'values'))
+    sr.close()
+print(bad)
+if bad: reproduced(str(bad))
+not_reproduced()
+"""
     if case == "entry_points":
         return common + f"""
 be, ce = {bool(m.get('bin_exists'))}, {bool(m.get('cbin_exists'))}
